@@ -8,9 +8,29 @@ use crate::rm::*;
 use crate::stubs::*;
 use snow::verif;
 
+/// What (if anything) happens before the step under test: used by C07 (a failed call must be a no-op).
+#[derive(Clone, Copy, PartialEq)]
+pub enum Pre {
+    None,
+    /// failing write into a buffer of this many bytes (smaller than the message)
+    SmallBuf(usize),
+    /// call of the wrong kind for the current turn (read when it is time to write, and vice versa)
+    OutOfTurn,
+    /// genuine message, payload buffer one byte too small (reader only)
+    SmallPayloadBuf,
+}
+
+fn indicators(hs: &snow::HandshakeState) -> (bool, bool, bool) {
+    (hs.is_my_turn(), hs.is_handshake_finished(), hs.is_initiator())
+}
+
 /// Message k (0-based) of (pat, psk_mask): the party whose turn it is runs the real `write_message` with a
 /// PLEN-byte symbolic payload; everything is compared with the reference model's WriteMessage.
 pub fn step_write<const HL: usize, const PL: usize, const DL: usize, const PLEN: usize>(pat: Pat, psk_mask: u16, k: usize) {
+    step_write_pre::<HL, PL, DL, PLEN>(pat, psk_mask, k, Pre::None)
+}
+
+pub fn step_write_pre<const HL: usize, const PL: usize, const DL: usize, const PLEN: usize>(pat: Pat, psk_mask: u16, k: usize, pre: Pre) {
     let pro: [u8; 2] = kani::any();
     let mut pair = rm_pair::<Toy<HL, PL, DL>>(pat, psk_mask, NAME.as_bytes(), &pro);
     rm_advance::<Toy<HL, PL, DL>>(&mut pair, k);
@@ -22,6 +42,33 @@ pub fn step_write<const HL: usize, const PL: usize, const DL: usize, const PLEN:
     let payload: [u8; PLEN] = kani::any();
     let mut buf_s = [0u8; MSGBUF];
     let mut buf_r = [0u8; MSGBUF];
+    if pre != Pre::None {
+        let ind0 = indicators(&hs);
+        let hh0 = hs.get_handshake_hash().to_vec();
+        let other: [u8; PLEN] = kani::any();
+        let r = match pre {
+            Pre::SmallBuf(cap) => hs.write_message(&other, &mut buf_s[..cap]),
+            _ => {
+                let junk: [u8; 6] = kani::any();
+                let mut o = [0u8; 8];
+                hs.read_message(&junk, &mut o)
+            },
+        };
+        assert!(r.is_err(), "C07 harness: the preliminary call was expected to fail");
+        if pre == Pre::OutOfTurn {
+            assert!(r == Err(snow::Error::State(snow::error::StateProblem::NotTurnToRead)), "C11: out-of-turn read must report NotTurnToRead");
+        }
+        assert!(indicators(&hs) == ind0, "C07: a failed call changed turn / finished indicators");
+        assert!(hs.get_handshake_hash() == &hh0[..], "C07: a failed call changed the handshake hash");
+        // the failed attempt drew an ephemeral from slot 0 (if the message has one); the retry draws from the next slot
+        if rng_draws() == 1 {
+            set_rng_slot(1, &e);
+        }
+        unsafe {
+            RNG_DRAWS_BASE = RNG_DRAWS;
+            RNG_BYTES_BASE = RNG_BYTES;
+        }
+    }
     let rs = hs.write_message(&payload, &mut buf_s);
     let mut ok = true;
     let nr = HsOps::<Toy<HL, PL, DL>>::write(&mut rmw, &e[..PL], &payload, &mut buf_r, &mut ok);
@@ -42,7 +89,7 @@ pub fn step_write<const HL: usize, const PL: usize, const DL: usize, const PLEN:
     assert!(hs.was_write_payload_encrypted() == rmw.sym.has_k, "C01: payload-encrypted indication");
     assert!(hs.is_handshake_finished() == (rmw.pos == pat.nmsgs()), "C01: finished indication");
     let want_draw = if has_e_token(pat, k) { 1 } else { 0 };
-    assert!(rng_draws() == want_draw && rng_bytes() == want_draw * PL, "C01: ephemeral not drawn from the RNG during the write");
+    assert!(rng_draws_since() == want_draw && rng_bytes_since() == want_draw * PL, "C01: ephemeral not drawn from the RNG during the write");
     if rmw.pos == pat.nmsgs() {
         let k1 = cipher_key(EP_A.c1);
         let k2 = cipher_key(EP_A.c2);
@@ -54,6 +101,10 @@ pub fn step_write<const HL: usize, const PL: usize, const DL: usize, const PLEN:
 
 /// Message k: the peer (reference model) writes it, the real `read_message` reads it.
 pub fn step_read<const HL: usize, const PL: usize, const DL: usize, const PLEN: usize>(pat: Pat, psk_mask: u16, k: usize) {
+    step_read_pre::<HL, PL, DL, PLEN>(pat, psk_mask, k, Pre::None)
+}
+
+pub fn step_read_pre<const HL: usize, const PL: usize, const DL: usize, const PLEN: usize>(pat: Pat, psk_mask: u16, k: usize, pre: Pre) {
     let pro: [u8; 2] = kani::any();
     let mut pair = rm_pair::<Toy<HL, PL, DL>>(pat, psk_mask, NAME.as_bytes(), &pro);
     rm_advance::<Toy<HL, PL, DL>>(&mut pair, k);
@@ -67,6 +118,24 @@ pub fn step_read<const HL: usize, const PL: usize, const DL: usize, const PLEN: 
     let n = HsOps::<Toy<HL, PL, DL>>::write(&mut rmw, &e[..PL], &payload, &mut msg, &mut ok);
     let mut out_s = [0u8; 8];
     let mut out_r = [0u8; 8];
+    if pre != Pre::None {
+        let ind0 = indicators(&hs);
+        let hh0 = hs.get_handshake_hash().to_vec();
+        let r = match pre {
+            Pre::SmallPayloadBuf => hs.read_message(&msg[..n], &mut out_s[..PLEN - 1]),
+            _ => {
+                let junk: [u8; 2] = kani::any();
+                let mut b = [0u8; MSGBUF];
+                hs.write_message(&junk, &mut b)
+            },
+        };
+        assert!(r.is_err(), "C07 harness: the preliminary call was expected to fail");
+        if pre == Pre::OutOfTurn {
+            assert!(r == Err(snow::Error::State(snow::error::StateProblem::NotTurnToWrite)), "C11: out-of-turn write must report NotTurnToWrite");
+        }
+        assert!(indicators(&hs) == ind0, "C07: a failed call changed turn / finished indicators");
+        assert!(hs.get_handshake_hash() == &hh0[..], "C07: a failed call changed the handshake hash");
+    }
     let rs = hs.read_message(&msg[..n], &mut out_s);
     let nr = HsOps::<Toy<HL, PL, DL>>::read(&mut rmr, &msg[..n], &mut out_r, &mut ok);
     kani::cover!(ok, "C01 step_read reached");
